@@ -458,7 +458,8 @@ pub fn run_cred(ctx: &mut Ctx) {
             rng.bytes(20),
             format!("<KeyFile><Meta><Version>1.00</Version></Meta><Key><Data>{}</Data></Key></KeyFile>", base64::engine::general_purpose::STANDARD.encode(rng.bytes(32))).into_bytes(),
             format!("<KeyFile><Meta><Version>1.00</Version></Meta><Key><Data>{}</Data></Key></KeyFile>", base64::engine::general_purpose::STANDARD.encode(rng.bytes(31))).into_bytes(),
-            format!("<KeyFile><Meta><Version>2.0</Version></Meta><Key><Data>{}</Data></Key></KeyFile>", hex::encode(rng.bytes(32))).into_bytes(),
+            // (one byte of the key has a zero high nibble: the edit `keyfile-hex-plus-sign` has a '0' to replace)
+            format!("<KeyFile><Meta><Version>2.0</Version></Meta><Key><Data>{}</Data></Key></KeyFile>", hex::encode({ let mut k = rng.bytes(32); k[5] &= 0x0f; k })).into_bytes(),
             format!("<?xml version=\"1.0\"?><Workbook><Cell><Data Type=\"String\">{}</Data></Cell><Version>2.0</Version></Workbook>", hex::encode(rng.bytes(16))).into_bytes(),
             { let mut b = rng.bytes(70_003); b[0] = 0; b },     // delivered in pieces of 512 bytes by `make_key`
             { let mut b = rng.bytes(70_002); b[0] = 2; b },     // … of 4096 bytes
